@@ -12,7 +12,6 @@ mod common;
 use common::*;
 use vharness::*;
 
-const SIG: &str = "C14/update-delete-not-undone";
 
 struct Entry {
     name: String,
@@ -101,10 +100,10 @@ fn run_sp_case(c: &Case, model: &mut model::Model, rep: &mut Report, label: &str
                             effective_rollbacks += 1;
                         }
                         if !good {
-                            // narrow class of the recorded finding: a DML statement other than
-                            // INSERT changed the table between SAVEPOINT n and this ROLLBACK TO n
-                            // (the hypothesis InsertOnlyOp of C14_rollback_to_restores_partial fails)
-                            let sig = if dirty { Some(SIG) } else { None };
+                            // (UPDATE / DELETE / TRUNCATE / REPLACE / upsert used to be left out of the
+                            // change log — repaired by d69656ff; no failure class is excused any more)
+                            let _ = dirty;
+                            let sig: Option<&str> = None;
                             rep.fail(
                                 FailKind::Oracle,
                                 sig,
@@ -180,11 +179,11 @@ fn probes() -> Vec<(&'static str, Case)> {
         ("release-top-of-three", Case { schema: s2.clone(), stmts: vec![Stmt::Begin, sp("a"), ins(1, 1), sp("b"), ins(2, 2), sp("c"), ins(3, 3), Stmt::Release("c".into()), rb("b"), ins(4, 4), rb("a"), rb("b"), Stmt::Commit] }),
         ("release-second-of-four", Case { schema: s2.clone(), stmts: vec![Stmt::Begin, sp("a"), ins(1, 1), sp("b"), ins(2, 2), sp("c"), ins(3, 3), sp("d"), ins(4, 4), Stmt::Release("b".into()), rb("d"), ins(5, 5), rb("c"), ins(6, 6), rb("a"), rb("c"), Stmt::Commit] }),
         ("release-first-of-four", Case { schema: s2.clone(), stmts: vec![Stmt::Begin, sp("a"), ins(1, 1), sp("b"), ins(2, 2), sp("c"), ins(3, 3), sp("d"), ins(4, 4), Stmt::Release("a".into()), rb("c"), ins(5, 5), rb("b"), rb("d"), Stmt::Commit] }),
-        // recorded finding, reproduced on every run
-        ("delete-after-savepoint (known finding)", Case { schema: s2.clone(), stmts: vec![ins(1, 1), ins(2, 2), Stmt::Begin, sp("a"), Stmt::Delete(Pred::Cmp(0, "=", v(1))), rb("a")] }),
-        ("update-after-savepoint (known finding)", Case { schema: s2.clone(), stmts: vec![ins(1, 1), Stmt::Begin, sp("a"), Stmt::Update(vec![(1, SetE::Const(v(9)))], Pred::All), rb("a")] }),
-        ("update-of-inserted-row (known finding)", Case { schema: s2.clone(), stmts: vec![ins(1, 1), Stmt::Begin, sp("a"), ins(2, 2), Stmt::Update(vec![(1, SetE::Const(v(9)))], Pred::Cmp(0, "=", v(2))), rb("a")] }),
-        ("truncate-after-savepoint (known finding)", Case { schema: s2.clone(), stmts: vec![ins(1, 1), Stmt::Begin, sp("a"), Stmt::Truncate, rb("a")] }),
+        // repaired defect d69656ff, kept as regression probes
+        ("delete-after-savepoint (regression: d69656ff)", Case { schema: s2.clone(), stmts: vec![ins(1, 1), ins(2, 2), Stmt::Begin, sp("a"), Stmt::Delete(Pred::Cmp(0, "=", v(1))), rb("a")] }),
+        ("update-after-savepoint (regression: d69656ff)", Case { schema: s2.clone(), stmts: vec![ins(1, 1), Stmt::Begin, sp("a"), Stmt::Update(vec![(1, SetE::Const(v(9)))], Pred::All), rb("a")] }),
+        ("update-of-inserted-row (regression: d69656ff)", Case { schema: s2.clone(), stmts: vec![ins(1, 1), Stmt::Begin, sp("a"), ins(2, 2), Stmt::Update(vec![(1, SetE::Const(v(9)))], Pred::Cmp(0, "=", v(2))), rb("a")] }),
+        ("truncate-after-savepoint (regression: d69656ff)", Case { schema: s2.clone(), stmts: vec![ins(1, 1), Stmt::Begin, sp("a"), Stmt::Truncate, rb("a")] }),
     ]
 }
 
